@@ -252,7 +252,12 @@ def x_withdraw_first(b, cx, o, run, idx):
     b.withdrawals = w
 
 
-for _n, _f in [("x_script_input", x_script_input), ("x_minting_script", x_minting_script),
+def x_mint_set(b, cx, o, run, idx):
+    """`builder.mint = MultiAsset(...)` stored as given (no `+`, hence no normalisation): may hold zero quantities"""
+    b.mint = S.multi_asset(o["assets"])
+
+
+for _n, _f in [("x_mint_set", x_mint_set), ("x_script_input", x_script_input), ("x_minting_script", x_minting_script),
                ("x_withdrawal_script", x_withdrawal_script), ("x_certificate_script", x_certificate_script),
                ("x_output_datum", x_output_datum), ("x_cost_models", x_cost_models),
                ("x_withdrawals", x_withdraw_first)]:
@@ -484,6 +489,36 @@ def gen(rng, force=None):
         ops_free.append(o)
         ops_free.append({"op": "mint", "assets": [[spec, rng.choice(["", "61", "6262"]), rng.randint(1, 5)]]})
 
+    # ---- variant: the mint is stored directly and holds a policy whose only quantity is 0 (not in the body's mint)
+    zero_mint = []
+    plutus_minted = [a["script"] for a in attach if a["kind"] == "mint" and "marker" in a]
+    if plutus_minted and f.get("zero_mint", (not f) and rng.random() < 0.06):
+        cands = ["p2:zero%d" % i for i in range(12)]
+        if f.get("zero_mint"):          # corpus: make sure the stored-zero policy sorts before an attached one
+            lo = min(spec_hash(x) for x in plutus_minted)
+            cands = [c for c in cands if spec_hash(c) < lo] or cands
+        zspec = rng.choice(cands)
+        zero_mint.append(zspec)
+        assets = []
+        for o in [o for o in ops_free if o["op"] == "mint"]:
+            assets.extend(o["assets"])
+            ops_free.remove(o)
+        assets.insert(rng.randint(0, len(assets)), [zspec, "7a", 0])
+        ops_free.append({"op": "x_mint_set", "assets": assets})
+    # ---- variant: the same key UTxO is added twice
+    dup_input = None
+    if n_key and not zero_mint and f.get("dup_input", (not f) and rng.random() < 0.06):
+        j = 0
+        if f.get("dup_input"):          # corpus: the repeated input sorts before a script input
+            refs = [(u["txid"], u["ix"]) for u in utxos if u["id"].startswith("s")]
+            keyed = sorted((u for u in utxos if u["id"].startswith("kx")), key=lambda u: (u["txid"], u["ix"]))
+            if refs and (keyed[0]["txid"], keyed[0]["ix"]) < max(refs):
+                j = int(keyed[0]["id"][2:])
+        else:
+            j = rng.randrange(n_key)
+        dup_input = "kx%d" % j
+        ops_free.append({"op": "add_input", "u": dup_input})
+
     # ---- withdrawals
     n_wd = f.get("n_wd", rng.choice([0, 0, 0, 1, 1, 2]))
     wd_entries = []
@@ -598,7 +633,7 @@ def gen(rng, force=None):
     sc = {"slot": rng.choice([0, 500, 999, 1000, 1001, 2000, 123456789]), "utxos": utxos, "address_utxos": addr_utxos,
           "ops": ops, "build": build, "sign": ["k0"],
           "x": {"attach": attach, "estimate": estimate, "use_list": use_list, "versions": versions, "cm_mode": cm_mode,
-                "mixed_wd": bool(mixed_wd)}}
+                "mixed_wd": bool(mixed_wd), "zero_mint": zero_mint, "dup_input": dup_input}}
     if params:
         sc["params"] = params
     if estimate:
@@ -753,7 +788,7 @@ def model_ops(sc, cx):
                         "ref": utxo_ref(cx, o["ref_utxo"]) if o.get("script_in") == "ref" else None, "red": model_red(o)})
         elif k == "cert":
             out.append({"k": "cert"})
-        elif k == "mint":
+        elif k in ("mint", "x_mint_set"):
             for p, _, _ in o["assets"]:
                 out.append({"k": "mint", "p": spec_hash(p).hex()})
         elif k == "withdraw":
